@@ -28,12 +28,12 @@ func (ec *Client) GetPayloadV4(ctx context.Context, payloadID engine.PayloadID) 
 }
 
 func (ec *Client) NewPayloadV4(ctx context.Context, params *engine.ExecutableData, blobHashes []common.Hash, beaconRoot common.Hash, requests [][]byte) (*engine.PayloadStatusV1, error) {
-	var reqs []hexutil.Bytes
-	if requests != nil {
-		reqs = make([]hexutil.Bytes, len(requests))
-		for i := 0; i < len(requests); i++ {
-			reqs[i] = requests[i]
-		}
+	// always send a list: goat-geth refuses a null executionRequests parameter
+	// ("nil executionRequests post-prague"), and a payload without requests (the genesis
+	// head, or one restored from the store) has a nil slice here
+	reqs := make([]hexutil.Bytes, len(requests))
+	for i := 0; i < len(requests); i++ {
+		reqs[i] = requests[i]
 	}
 
 	var result engine.PayloadStatusV1
